@@ -1,7 +1,7 @@
 (* C07/Property.v — property theorems only. *)
 From Coq Require Import String List Bool ZArith.
-From Verif Require Import Base.Str Base.Py Base.Py2 C07.Model C07.Spec C07.Proofs C07.Corr C07.Source C07.Source2.
-From VerifGen Require Import C07Src C07Src2 C07Src2l.
+From Verif Require Import Base.Str Base.Py Base.Py2 C07.Model C07.Spec C07.Proofs C07.Corr C07.Source C07.Source2 C07.Source2c.
+From VerifGen Require Import C07Src C07Src2 C07Src2l C07Src2c.
 Import ListNotations.
 
 (* C07: for every receiver configuration (entity type, endpoints in every role, signing requirement,
@@ -217,9 +217,149 @@ Print Assumptions c07_instance_life.
 
 Theorem c07_life_spec_reflect :
   forall t, tholds t = true ->
-    Forall (fun c => match snd c with Some v => spec icert_of iesign idsign (fst c) v | None => True end) (cases_of t).
+    Forall (fun c => match c_out c with
+                     | Some v => spec_src icert_of iesign idsign (src (c_seen c)) (c_in c) v
+                     | None => True
+                     end) (cases_of t).
 Proof. exact tholds_sound. Qed.
 Print Assumptions c07_life_spec_reflect.
+
+(* ---------- the requirement AS WRITTEN (strengthening, seed C07-8) ----------
+   The two options of the idp section are whatever value the configuration source holds (absent, None, a
+   Boolean, a number, any text); Config.load_special turns the exact texts "true" / "false" into Booleans and
+   _parse_request uses the truth value of what is stored (Model.stored) and, for the certificate-only option since
+   9e47ced6, what a text value says (Model.stored_ovc).  The property is restated with "the
+   entity requires signed requests" read off the source: an option is on when its value SAYS so (True, a
+   number other than 0, true / yes / on / 1 in any capitalisation, blanks ignored), and the certificate-only
+   opt-in cannot be claimed for a value that says no (Spec.spec_src). *)
+
+(* a value that says yes is a requirement for the code: however it is spelled, it is stored as a true value *)
+Theorem c07_written_yes_is_set : forall v : cval, says_yes v -> stored v = Some true.
+Proof. exact says_yes_stored. Qed.
+Print Assumptions c07_written_yes_is_set.
+
+(* so the signing requirement holds as written, with no exception: a request that must be signed and is not
+   is not processed *)
+Theorem c07_written_unsigned_rejected :
+  forall (key cert esig dsig doc : Type) (cert_of : key -> cert)
+         (esign : key -> body -> esig) (dsign : key -> doc * option string * string -> dsig)
+         (everify : cert -> body -> esig -> bool) (dverify : cert -> doc * option string * string -> dsig -> bool),
+    (forall c b s, everify c b s = true <-> exists k, c = cert_of k /\ s = esign k b) ->
+    (forall c o s, dverify c o s = true <-> exists k, c = cert_of k /\ s = dsign k o) ->
+    forall (s : source) (x : input cert esig dsig doc),
+      requires_src s -> binding x <> Some BINDING_HTTP_REDIRECT -> env x = None ->
+      parse_request everify dverify (load_src s x) <> Accept.
+Proof. exact unsigned_rejected_src. Qed.
+Print Assumptions c07_written_unsigned_rejected.
+
+Theorem c07_written_unsigned_redirect_rejected :
+  forall (key cert esig dsig doc : Type) (cert_of : key -> cert)
+         (esign : key -> body -> esig) (dsign : key -> doc * option string * string -> dsig)
+         (everify : cert -> body -> esig -> bool) (dverify : cert -> doc * option string * string -> dsig -> bool),
+    (forall c b s, everify c b s = true <-> exists k, c = cert_of k /\ s = esign k b) ->
+    (forall c o s, dverify c o s = true <-> exists k, c = cert_of k /\ s = dsign k o) ->
+    forall (s : source) (x : input cert esig dsig doc),
+      requires_src s -> binding x = Some BINDING_HTTP_REDIRECT -> (sigalg x = None \/ signature x = None) ->
+      parse_request everify dverify (load_src s x) <> Accept.
+Proof. exact unsigned_redirect_rejected_src. Qed.
+Print Assumptions c07_written_unsigned_redirect_rejected.
+
+(* the certificate-only option as the code reads it now (9e47ced6): a value that says yes opts in, and no value
+   that says no does *)
+Theorem c07_written_ovc_reading : forall v : cval,
+  (says_yes v -> stored_ovc v = Some true) /\ (stored_ovc v = Some true -> ~ says_no v).
+Proof. exact (fun v => conj (says_yes_stored_ovc v) (stored_ovc_not_no v)). Qed.
+Print Assumptions c07_written_ovc_reading.
+
+(* the whole property holds as written, for every source, every receiver and every input *)
+Theorem c07_written_enforces :
+  forall (key cert esig dsig doc : Type) (cert_of : key -> cert)
+         (esign : key -> body -> esig) (dsign : key -> doc * option string * string -> dsig)
+         (everify : cert -> body -> esig -> bool) (dverify : cert -> doc * option string * string -> dsig -> bool),
+    (forall c b s, everify c b s = true <-> exists k, c = cert_of k /\ s = esign k b) ->
+    (forall c o s, dverify c o s = true <-> exists k, c = cert_of k /\ s = dsign k o) ->
+    forall (s : source) (x : input cert esig dsig doc),
+      spec_src cert_of esign dsign s (load_src s x) (parse_request everify dverify (load_src s x)).
+Proof. exact soundness_src. Qed.
+Print Assumptions c07_written_enforces.
+
+(* ... and of every request of every life *)
+Theorem c07_life_written_enforces :
+  forall (key cert esig dsig doc : Type) (cert_of : key -> cert)
+         (esign : key -> body -> esig) (dsign : key -> doc * option string * string -> dsig)
+         (everify : cert -> body -> esig -> bool) (dverify : cert -> doc * option string * string -> dsig -> bool),
+    (forall c b s, everify c b s = true <-> exists k, c = cert_of k /\ s = esign k b) ->
+    (forall c o s, dverify c o s = true <-> exists k, c = cert_of k /\ s = dsign k o) ->
+    forall (st : nat -> mdfun cert) (ops : list (op cert esig dsig doc)),
+      Forall (fun p => forall s x0, fst p = load_src s x0 -> spec_src cert_of esign dsign s (fst p) (snd p))
+             (run_life everify dverify st ops).
+Proof. exact life_sound_src. Qed.
+Print Assumptions c07_life_written_enforces.
+
+(* FINDING C07-F2 (fixed by 9e47ced6).  Before, the certificate-only option was read by its truth value
+   (Model.load_src_v0).  The values that say no and were nevertheless read as set: exactly the non-empty texts other
+   than the exact "false" that read false / no / off / 0 / blank ("False", "FALSE", "no", "0", " ") *)
+Theorem c07_written_misread_class :
+  forall v : cval, (says_no v /\ stored_ovc_v0 v = Some true) <-> misread_no v.
+Proof. exact says_no_stored_true. Qed.
+Print Assumptions c07_written_misread_class.
+
+(* with such a text the code as it WAS violated the property as written (witness: "False"; a request whose content
+   was altered after signing was processed) *)
+Theorem c07_written_v0_refuted :
+  exists (s : source) (x : iinput), ~ spec_src icert_of iesign idsign s (load_src_v0 s x) (imodel (load_src_v0 s x)).
+Proof. exact src_v0_refuted. Qed.
+Print Assumptions c07_written_v0_refuted.
+
+(* ... and only with such a text *)
+Theorem c07_written_v0_enforces :
+  forall (key cert esig dsig doc : Type) (cert_of : key -> cert)
+         (esign : key -> body -> esig) (dsign : key -> doc * option string * string -> dsig)
+         (everify : cert -> body -> esig -> bool) (dverify : cert -> doc * option string * string -> dsig -> bool),
+    (forall c b s, everify c b s = true <-> exists k, c = cert_of k /\ s = esign k b) ->
+    (forall c o s, dverify c o s = true <-> exists k, c = cert_of k /\ s = dsign k o) ->
+    forall (s : source) (x : input cert esig dsig doc),
+      ~ misread_no (s_ovc s) ->
+      spec_src cert_of esign dsign s (load_src_v0 s x) (parse_request everify dverify (load_src_v0 s x)).
+Proof. exact soundness_src_v0. Qed.
+Print Assumptions c07_written_v0_enforces.
+
+(* the boolean that Coq evaluates on every observed verdict is the property as written *)
+Theorem c07_written_spec_reflect :
+  forall s x v, spec_src_b s x v = true <-> spec_src icert_of iesign idsign s x v.
+Proof. exact spec_src_b_iff. Qed.
+Print Assumptions c07_written_spec_reflect.
+
+(* non-vacuity: the requirement spelled 'True' - unsigned rejected, signed processed *)
+Theorem c07_written_nonvacuous :
+  requires_src src_True
+  /\ imodel (load_src src_True (Build_input ex_cfg 1700000000 AuthnRequest (Some BINDING_HTTP_POST) WBase64 1%nat
+               (ex_body "https://idp.example.org/sso/post") None None None None)) = RejSig
+  /\ imodel (load_src src_True ex_post) = Accept.
+Proof. exact spelled_True_unsigned_rejected. Qed.
+Print Assumptions c07_written_nonvacuous.
+
+(* tie to the source TEXT of the loader (coq/gen/C07Src2c.v, re-translated on every run): the statements of
+   Config.load_special between cnf[arg] and self.setattr compute Model.load_special_val for every value ... *)
+Theorem c07_source2_load_special : forall v : cval,
+  written v = true -> src2_load_special_value (enc_cval v) = enc_cval (load_special_val v).
+Proof. exact src2_load_special_value_is_model. Qed.
+Print Assumptions c07_source2_load_special.
+
+(* ... and what Config.getattr then hands to _parse_request is None exactly when Model.stored is, and has the
+   truth value Model.stored says otherwise *)
+Theorem c07_source2_stored : forall v : cval,
+  match stored v with
+  | None => getattr_py v = PNone
+  | Some t => getattr_py v <> PNone /\ py_truthy (getattr_py v) = t
+  end.
+Proof. exact src2_stored_is_model. Qed.
+Print Assumptions c07_source2_stored.
+
+(* ... namely the encoding of Model.load_special_val: the W / O of c07_source2_parse_request *)
+Theorem c07_source2_getattr : forall v : cval, getattr_py v = enc_cval (load_special_val v).
+Proof. exact getattr_py_enc. Qed.
+Print Assumptions c07_source2_getattr.
 
 (* tie to the source TEXT: Request._verify as translated from /repo's current source on this run
    (coq/gen/C07Src.v, harness/py2coq.py) computes the model's version and Destination tests, for every
@@ -364,17 +504,20 @@ Theorem c07_source2_loads_split :
 Proof. exact parse_request_split. Qed.
 Print Assumptions c07_source2_loads_split.
 
-(* Entity._parse_request: Request.loads is handed exactly Model.receiver_addrs, Model.slack and the model's must /
-   only_valid_cert; an exception of unravel / loads propagates; a request whose verify() is false is not returned *)
+(* Entity._parse_request: Request.loads is handed exactly Model.receiver_addrs, Model.slack and must / only_valid_cert
+   as below, whatever configuration values (None, Boolean, number, text) Config.getattr answers for the two options
+   - since 9e47ced6 a text value of only_valid_cert is read by what it says -; an exception of unravel / loads
+   propagates; a request whose verify() is false is not returned *)
 Theorem c07_source2_parse_request :
   forall (cert : Type) (endpoint_py : pyval -> pyval -> pyval -> pyval) (cfg_getattr : pyval -> pyval -> pyval)
          (unravel_py mk_request : pyval -> pyval -> pyval -> pyval) (loads_py : pyval -> list (string * pyval) -> pyval)
-         (verify_py : pyval -> pyval) (c : config cert) (svc mt : string) (bnd : option string) (enc rs sa sg : pyval)
-         (u : string + string),
+         (verify_py : pyval -> pyval) (c : config cert) (W O : cval) (svc mt : string) (bnd : option string)
+         (enc rs sa sg : pyval) (u : string + string),
   is_bad enc = false -> is_bad rs = false -> is_bad sa = false -> is_bad sg = false ->
   (forall typ, endpoint_py (PStr svc) (enc_ostr bnd) (PStr typ) = PList (map PStr (endpoint (eps c typ svc) bnd))) ->
-  cfg_getattr (PStr "want_authn_requests_signed") (PStr "idp") = enc_obool (want_signed c) ->
-  cfg_getattr (PStr "want_authn_requests_only_with_valid_cert") (PStr "idp") = enc_obool (only_valid_cert c) ->
+  cfg_getattr (PStr "want_authn_requests_signed") (PStr "idp") = enc_cval W ->
+  cfg_getattr (PStr "want_authn_requests_only_with_valid_cert") (PStr "idp") = enc_cval O ->
+  ascii_text O ->
   unravel_py enc (enc_ostr bnd) (PStr mt) = match u with inl n => PExc n | inr xml => PStr xml end ->
   (forall a s k, is_bad (mk_request a s k) = false) ->
   (forall r kw, loads_py r kw <> PErr) ->
@@ -385,8 +528,8 @@ Theorem c07_source2_parse_request :
     | inl n => PExc n
     | inr xml =>
         let L := loads_py (mk_request (PList (map PStr (receiver_addrs c svc bnd))) (PInt (slack c)) (enc_cls mt))
-                   [("xmlstr", PStr xml); ("binding", enc_ostr bnd); ("must", must_py cert c);
-                    ("only_valid_cert", ovc_py cert c); ("origdoc", enc); ("relay_state", rs); ("sigalg", sa);
+                   [("xmlstr", PStr xml); ("binding", enc_ostr bnd); ("must", must_py W O);
+                    ("only_valid_cert", ovc_py O); ("origdoc", enc); ("relay_state", rs); ("sigalg", sa);
                     ("signature", sg)] in
         match L with
         | PExc n => PExc n
@@ -396,9 +539,10 @@ Theorem c07_source2_parse_request :
 Proof. exact src2_parse_request_is_model. Qed.
 Print Assumptions c07_source2_parse_request.
 
-(* the must= / only_valid_cert= values handed over are true exactly when the model's are *)
-Theorem c07_source2_parse_request_must : forall (cert : Type) (c : config cert),
-  py_truthy (must_py cert c) = truthy (want_signed c) || truthy (only_valid_cert c)
-  /\ py_truthy (ovc_py cert c) = truthy (only_valid_cert c).
-Proof. exact (fun cert c => conj (truthy_must_py cert c) (truthy_ovc_py cert c)). Qed.
+(* for options written as w / v and stored by Config.load_special, the must= / only_valid_cert= values handed over
+   are true exactly when the model's (Model.stored / Model.stored_ovc, i.e. Model.load_src) are *)
+Theorem c07_source2_parse_request_must : forall w v : cval,
+  py_truthy (must_py (load_special_val w) (load_special_val v)) = truthy (stored w) || truthy (stored_ovc v)
+  /\ py_truthy (ovc_py (load_special_val v)) = truthy (stored_ovc v).
+Proof. exact (fun w v => conj (truthy_must_py w v) (truthy_ovc_py v)). Qed.
 Print Assumptions c07_source2_parse_request_must.
